@@ -10,9 +10,21 @@ import (
 	"bytes"
 	"fmt"
 	"testing"
+	"time"
 )
 
 type vC05Fail struct{ oracle, detail string }
+
+type vC05Result struct {
+	obs        vSx
+	fl         *vC05Fail
+	nontrivial bool
+	counts     [][2]string
+}
+
+func (r *vC05Result) count(h, b string) { r.counts = append(r.counts, [2]string{h, b}) }
+
+const vC05CaseTimeout = 30 * time.Second
 
 func vC05CheckStrictCounts(a Amf0) string {
 	switch x := a.(type) {
@@ -192,10 +204,9 @@ func vC05RunBytes(k *vKit, b []byte) (obs vSx, fl *vC05Fail, tree *vC05Node) {
 func TestVerifC05(t *testing.T) {
 	k := vNewKit(t, "C05")
 	defer k.close()
-	runCase := func(c vSx) {
+	runCase := func(c vSx) (res vC05Result) {
 		if !c.isList() || len(c.l) != 2 || !c.l[0].isInt() {
-			k.record(c, vL(vZ(-1)), false)
-			return
+			return vC05Result{obs: vL(vZ(-1))}
 		}
 		var obs vSx
 		var fl *vC05Fail
@@ -204,71 +215,82 @@ func TestVerifC05(t *testing.T) {
 		case 0:
 			n, ok := vC05FromSx(c.l[1])
 			if !ok {
-				k.record(c, vL(vZ(-1)), false)
-				return
+				return vC05Result{obs: vL(vZ(-1))}
 			}
 			obs, fl = vC05RunTree(k, n)
 			nontrivial = vC05Depth(n) >= 2 || vC05HasDupOrEmptyKey(n)
-			k.count("kind", "api-tree")
-			k.count("tree-depth", fmt.Sprint(vC05Depth(n)))
-			k.count("tree-nodes", vSizeBucket(vC05CountNodes(n)))
-			k.count("tree-longest-string", vC05StrBucket(vC05MaxStr(n)))
+			res.count("kind", "api-tree")
+			res.count("tree-depth", fmt.Sprint(vC05Depth(n)))
+			res.count("tree-nodes", vSizeBucket(vC05CountNodes(n)))
+			res.count("tree-longest-string", vC05StrBucket(vC05MaxStr(n)))
 		case 1:
 			if !c.l[1].isBytes() {
-				k.record(c, vL(vZ(-1)), false)
-				return
+				return vC05Result{obs: vL(vZ(-1))}
 			}
 			var tree *vC05Node
 			obs, fl, tree = vC05RunBytes(k, c.l[1].b)
-			k.count("kind", "bytes")
-			k.count("bytes-len", vSizeBucket(len(c.l[1].b)))
+			res.count("kind", "bytes")
+			res.count("bytes-len", vSizeBucket(len(c.l[1].b)))
 			if tree != nil {
 				nontrivial = vC05Depth(tree) >= 2 || vC05HasDupOrEmptyKey(tree)
-				k.count("bytes-result", "ok")
+				res.count("bytes-result", "ok")
 				if vC05HasDupOrEmptyKey(tree) {
-					k.count("bytes-ok", "dup-or-empty-key")
+					res.count("bytes-ok", "dup-or-empty-key")
 				}
 				if a, _ := vC05Decode(c.l[1].b); a != nil && a.Size() < len(c.l[1].b) {
-					k.count("bytes-ok", "trailing-bytes")
+					res.count("bytes-ok", "trailing-bytes")
 				}
 			} else if len(obs.l) == 2 {
-				k.count("bytes-result", "err"+obs.l[1].String())
+				res.count("bytes-result", "err"+obs.l[1].String())
 			} else {
-				k.count("bytes-result", "panic")
+				res.count("bytes-result", "panic")
 			}
 		case 2:
 			if !c.l[1].isList() {
-				k.record(c, vL(vZ(-1)), false)
-				return
+				return vC05Result{obs: vL(vZ(-1))}
 			}
 			obs, fl, nontrivial = vC05RunHist(c.l[1])
-			k.count("kind", "history")
-			k.count("history-ops", vSizeBucket(len(c.l[1].l)))
+			res.count("kind", "history")
+			res.count("history-ops", vSizeBucket(len(c.l[1].l)))
 			if nontrivial {
-				k.count("history-shape", "set-after-marshal-then-marshal")
+				res.count("history-shape", "set-after-marshal-then-marshal")
 			}
 		default:
-			k.record(c, vL(vZ(-1)), false)
-			return
+			return vC05Result{obs: vL(vZ(-1))}
 		}
-		idx := k.record(c, obs, nontrivial)
-		if fl != nil {
-			k.fail(idx, c.size(), fl.oracle, "", fl.detail)
-		}
+		res.obs, res.fl, res.nontrivial = obs, fl, nontrivial
+		return res
 	}
-	// nothing the library does may crash the driver: a panic anywhere while running a case is
-	// an oracle failure on that case
+	// Nothing the library does may crash or stall the driver: the case runs in its own goroutine;
+	// a panic or a hang (watchdog) is an oracle failure on that case.  All recording happens here.
+	stalled := false
 	runOne := func(c vSx) {
-		before := k.n
-		msg := vPanicText(func() { runCase(c) })
-		if msg == "" {
+		if stalled {
 			return
 		}
-		idx := before
-		if k.n == before {
-			idx = k.record(c, vPanicObs(), false)
+		ch := make(chan vC05Result, 1)
+		go func() {
+			var res vC05Result
+			if msg := vPanicText(func() { res = runCase(c) }); msg != "" {
+				res = vC05Result{obs: vPanicObs(), fl: &vC05Fail{"no-panic", "panic while running the case: " + msg}}
+			}
+			ch <- res
+		}()
+		var res vC05Result
+		select {
+		case res = <-ch:
+		case <-time.After(vC05CaseTimeout):
+			// the goroutine is abandoned (it may hold a lock of the library forever); stop generating
+			stalled = true
+			res = vC05Result{obs: vL(vZ(3)), fl: &vC05Fail{"no-hang", fmt.Sprintf("the case did not return within %v", vC05CaseTimeout)}}
 		}
-		k.fail(idx, c.size(), "no-panic", "", "panic while running the case: "+msg)
+		for _, kv := range res.counts {
+			k.count(kv[0], kv[1])
+		}
+		idx := k.record(c, res.obs, res.nontrivial)
+		if res.fl != nil {
+			k.fail(idx, c.size(), res.fl.oracle, "", res.fl.detail)
+		}
 	}
 	if k.replay != nil {
 		runOne(*k.replay)
